@@ -143,16 +143,21 @@ func cloneFindings(c astgen.Case, tree *ast.Tree, typed bool) (fs []astgen.Findi
 		la, lb, differ := asteq.Diff(before, asteq.Dump(cl, full))
 		if differ && typed {
 			// On a type-checked tree the clone may leave out the checker's
-			// annotations (Upvars, IR, reflect types) — then it must leave them
-			// all out — or carry them over equal; the rest must be equal.
+			// annotations (Upvars, IR, reflect types); what it carries over must
+			// be equal; the rest must be equal.
 			bare := full
 			bare.SkipAnnotations = true
 			la, lb, differ = asteq.Diff(asteq.Dump(n, bare), asteq.Dump(cl, bare))
 			if !differ {
+				orig := map[string]string{}
+				for _, l := range before {
+					if asteq.IsAnnotation(l) {
+						orig[l.Path] = l.Val
+					}
+				}
 				for _, l := range asteq.Dump(cl, full) {
-					if asteq.IsAnnotation(l) && !asteq.IsZero(l) {
-						la, lb, differ = asteq.Line{Path: l.Path, Val: "(annotations of the original)"}, l, true
-						la.Path = ".annotations" + la.Path
+					if asteq.IsAnnotation(l) && !asteq.IsZero(l) && orig[l.Path] != l.Val {
+						la, lb, differ = asteq.Line{Path: ".annotations" + l.Path, Val: orig[l.Path]}, l, true
 						break
 					}
 				}
@@ -450,7 +455,7 @@ func main() {
 			"clone equality = equal deterministic reflection dumps including *ast.Position values and parenthesis counts; nil and empty slices are equal",
 			"independence = after changing every settable number, string, bool, byte, slice element and parenthesis count reachable from the clone, the original's dump is unchanged; pointers shared without an observable effect (none is documented) are only counted in the outcome class",
 			"reachable nodes = values implementing ast.Node found by reflection through exported fields, except *ast.Position and IR fields; children documented as skipped by Walk: " + documentedSkips,
-			"the first four spaces take trees before type checking; the space 5-type-checked keeps the tree given to ExpandedTransformer until BuildTemplate has returned, i.e. with the checker's annotations (Upvars and their Declaration nodes, IR fields, reflect types): a clone may omit all annotations or carry them equal, and mutating everything reachable from the clone, annotations included, must not change the original",
+			"the first four spaces take trees before type checking; the space 5-type-checked keeps the tree given to ExpandedTransformer until BuildTemplate has returned, i.e. with the checker's annotations (Upvars and their Declaration nodes, IR fields, reflect types): every annotation a clone carries must equal the original's (it may leave annotations out), and mutating everything reachable from the clone, annotations included, must not change the original",
 		},
 		Spaces: spaces,
 	})
